@@ -175,9 +175,29 @@ def cheap(seeds, cap, workdir):
 
 
 def peg_world(toks, maxtok, maxparen, seeds, budgets=False, expect=(), checked=False, later=None):
-    g = json.load(open(os.path.join(vlib.SPEC, "grammar_frozen.json")))
+    g = load_grammar()
     return {"grammar": g, "tokens": toks, "maxtok": maxtok, "maxparen": maxparen, "seeds": seeds, "budgets": budgets, "expect": list(expect), "checked": checked,
             "later": list(range(1, len(toks) + 1)) if later is None else [toks.index(tok(t)) + 1 for t in later]}
+
+
+KIND_CODE = {"choice": 1, "seq": 2, "act": 3, "lab": 4, "ref": 5, "lit": 6, "cls": 7, "any": 8, "andcode": 9, "not": 10, "and": 11, "opt": 12, "star": 13, "plus": 14}
+
+
+def load_grammar():
+    """the frozen reference grammar; every parsing expression also carries the number of its kind (c), which spec/Peg.tla folds
+    into the step-trace hash (a derived field: the kinds themselves are what is frozen)"""
+    g = json.load(open(os.path.join(vlib.SPEC, "grammar_frozen.json")))
+    def ann(x):
+        if isinstance(x, dict):
+            if x.get("t") in KIND_CODE:
+                x["c"] = KIND_CODE[x["t"]]
+            for v in x.values():
+                ann(v)
+        elif isinstance(x, list):
+            for v in x:
+                ann(v)
+    ann(g)
+    return g
 
 
 def symstr(s):
